@@ -111,9 +111,9 @@ static Poly ppow(const Poly &p, long k)
         r = pmul(r, p);
     return r;
 }
-static int sgn(const mpq_class &q)
+static int qsgn(const mpq_class &q)
 {
-    return ::sgn(q);
+    return mpq_sgn(q.get_mpq_t());
 }
 // number of distinct real roots (Sturm), p != 0
 static int sturm_count(const Poly &p)
@@ -133,7 +133,7 @@ static int sturm_count(const Poly &p)
         for (auto &s : seq) {
             if (s.empty())
                 continue;
-            int v = sgn(s.back());
+            int v = qsgn(s.back());
             if (minus && (deg(s) % 2))
                 v = -v;
             if (last && v != last)
@@ -726,6 +726,39 @@ enum { K_JUDGED_EVALUATED, K_JUDGED_UNEVALUATED_FORM, K_UNDECIDED_SETFORM, K_UND
        K_MEMBERS_RESIDUAL_CHECKED, K_NONEMPTY_EXPECTED, K_CASTBAD_PATH, K_TRIG_JUDGED, K_TRIG_UNDECIDED, K_TRIG_MEMBERS,
        K_LIN_CHECKED, K_LIN_SINGULAR_SKIPPED };
 
+// Mirrors the dispatch of solve() / solve_rational() (Mul -> factors; as_numer_denom -> solve(num), solve(den); else
+// solve_poly) down to the polynomial sub-solves and reports the first one that lies on a path that down_casts a
+// non-FiniteSet sub-result ("" if none).  Signature only.
+static std::string rational_badcast_path(const RCP<const Basic> &e, int dom, int depth = 0)
+{
+    try {
+        if (depth > 4 || is_a_Number(*e) || !has_symbol(*e, *X))
+            return "";
+        if (is_a<Mul>(*e)) {
+            for (auto &a : e->get_args()) {
+                std::string r = rational_badcast_path(a, dom, depth + 1);
+                if (!r.empty())
+                    return r;
+            }
+            return "";
+        }
+        RCP<const Basic> num, den;
+        as_numer_denom(e, outArg(num), outArg(den));
+        if (has_symbol(*den, *X)) {
+            std::string r = rational_badcast_path(num, dom, depth + 1);
+            return r.empty() ? rational_badcast_path(den, dom, depth + 1) : r;
+        }
+        RF m = rf_model(*num, "x");
+        if (!m.ok || deg(m.d) != 0 || deg(m.n) < 3 || deg(m.n) > 4)
+            return "";
+        bool cb = false;
+        std::string pc = path_class(m.n, dom, cb);
+        return cb ? pc : "";
+    } catch (std::exception &) {
+        return "";
+    }
+}
+
 static std::string eq_sigbase(const Case &cs)
 {
     std::string path = cs.family;
@@ -734,6 +767,9 @@ static std::string eq_sigbase(const Case &cs)
         path = "poly:" + path_class(cs.p, cs.dom, cb);
     } else {
         path = "rational:" + std::string(is_a<Mul>(*cs.f) ? "Mul" : is_a<Add>(*cs.f) ? "Add" : is_a<Pow>(*cs.f) ? "Pow" : "other");
+        std::string bc = rational_badcast_path(cs.f, cs.dom);
+        if (!bc.empty())
+            path += ">" + bc;
     }
     return path + "[" + DOMN[cs.dom] + "]";
 }
@@ -810,7 +846,7 @@ static void run_eq(const Case &cs, Ctx &c)
         std::string kind = got.kind != E.set.kind ? "wrong-kind" : "missing-root";
         if (got.kind == FIN && E.set.kind == FIN && got.vals.size() > E.set.vals.size())
             kind = "extra-member";
-        c.violation(eq_sigbase(cs) + ":" + kind, what + " = " + sstr(s) + " denotes " + vstr(got) + "; expected " + expected);
+        c.violation(eq_sigbase(cs) + ":" + kind + (got.evaluated ? "" : "/operator-form"), what + " = " + sstr(s) + " denotes " + vstr(got) + "; expected " + expected);
         return;
     }
     if (c.index % 397 == 0)
@@ -1201,7 +1237,17 @@ int main(int argc, char **argv)
         std::string o = oc.rfind("crash", 0) == 0 ? "crash" : oc.rfind("state-dependent", 0) == 0 ? "crash" : oc;
         return eq_sigbase(EQ[i]) + ":" + o;
     };
-    ce.body = [&](long long i, Ctx &c) { run_eq(EQ[i], c); };
+    ce.body = [&](long long i, Ctx &c) {
+        auto cpu = []() {
+            struct timespec ts;
+            clock_gettime(CLOCK_PROCESS_CPUTIME_ID, &ts);
+            return ts.tv_sec + 1e-9 * ts.tv_nsec;
+        };
+        double t0 = cpu();
+        run_eq(EQ[i], c);
+        if (getenv("VERIF_C30_TIMING"))
+            fprintf(stderr, "T %.4f %lld %s\n", cpu() - t0, i, ce.desc(i).substr(0, 150).c_str());
+    };
     const char *only = getenv("VERIF_C30_ONLY"); // development aid: run one family
     auto want = [&](const char *n) { return !only || std::string(only) == n; };
     if (want("equations"))
